@@ -277,12 +277,15 @@ func c01CastCfgs() []Cfg {
 
 func c01Cfgs(maxDev int) []Cfg {
 	var out []Cfg
-	for _, ap := range []string{"-", "", "@"} {
+	for _, ap := range []string{"-", "", "@", "A_"} {
 		for _, kp := range []string{"#", "_"} {
 			for bits := 0; bits < 128; bits++ {
 				dev := 0
 				if ap != "-" {
 					dev++
+				}
+				if ap == "A_" && (bits&1 == 0 || bits&^(1|2|64) != 0 || kp != "#") {
+					continue // the prefix with a capital letter: with key folding on, and snake case / cast at most
 				}
 				if kp != "#" {
 					dev++
@@ -305,7 +308,7 @@ func c01Cfgs(maxDev int) []Cfg {
 
 func c01Run(c *Ctx) {
 	mustBeDefault(c)
-	c.S.Rule = "cases = (document, rendering, configuration): documents are all element trees with <= N elements (child names over {a,b}, fan-out <= 3) decorated with <= D decorations (attribute incl. namespaced/case/snake variants and a name colliding with a child under an empty prefix; one text run at every position, plain or CDATA, with blanks/specials/number and boolean look-alikes; comment / processing instruction at every position; renamed element: case, hyphen/underscore, namespace prefix); every document (quick: trees with fewer than N elements) x all 768 configurations (3 attribute prefixes x 2 key prefixes x 2^7 of lower, snake, simple-as-map, keep-spaces, seq numbers, decoder escaping, cast) for <= 1 decoration, and x all configurations with <= 2 option deviations for 2 decorations; plus all 8 combinations of the cast-to-int/float/bool sub-options with the cast flag on; a scale family (33-1025 repeated and interleaved siblings, 33/129 attributes, nesting depth 64/300, text and names of 300/5000 bytes) under configurations with <= 1 deviation; rendering variants (empty-element form, quoting, blanks in tags, inter-element whitespace, prolog, character references) explored one deviation at a time. non-trivial = expected Map contains a list, a text key or an attribute."
+	c.S.Rule = "cases = (document, rendering, configuration): documents are all element trees with <= N elements (child names over {a,b}, fan-out <= 3) decorated with <= D decorations (attribute incl. namespaced/case/snake variants and a name colliding with a child under an empty prefix; one text run at every position, plain or CDATA, with blanks/specials/number and boolean look-alikes; comment / processing instruction at every position; renamed element: case, hyphen/underscore, namespace prefix); every document (quick: trees with fewer than N elements) x all 768 configurations (3 attribute prefixes x 2 key prefixes x 2^7 of lower, [plus the attribute prefix 'A_' with a capital letter under key folding] snake, simple-as-map, keep-spaces, seq numbers, decoder escaping, cast) for <= 1 decoration, and x all configurations with <= 2 option deviations for 2 decorations; plus all 8 combinations of the cast-to-int/float/bool sub-options with the cast flag on; a scale family (33-1025 repeated and interleaved siblings, 33/129 attributes, nesting depth 64/300, text and names of 300/5000 bytes) under configurations with <= 1 deviation; rendering variants (empty-element form, quoting, blanks in tags, inter-element whitespace, prolog, character references) explored one deviation at a time. non-trivial = expected Map contains a list, a text key or an attribute."
 	c.S.Assumptions = []string{"reference decode conventions in harness/ref_xml.go, computed from the abstract tree", "_seq accepted as int or digit string", "attribute values containing tab/newline are rendered as character references"}
 	maxElems, maxElems2 := 4, 3
 	if c.Thorough {
